@@ -371,8 +371,12 @@ def step (st : DState) (line : String) : DState × String :=
     | none => (st, "parse-error")
   | "FE" :: r => match pParams r with
     | some (_, r1) => match pL r1 with
-      | some (body, []) => match Model.ast2cfg body with
-        | .ok bs => (st, "ok " ++ " ".intercalate (prBlocks bs))
+      | some (body, []) =>
+        let hyp := match Model.ast2cfgPre body with
+          | .ok pre => if Model.pruneHypOK pre then "1" else "0"
+          | .error _ => "-"
+        match Model.ast2cfg body with
+        | .ok bs => (st, "ok hyp=" ++ hyp ++ " " ++ " ".intercalate (prBlocks bs))
         | .error e => (st, "abort " ++ e)
       | _ => (st, "parse-error")
     | none => (st, "parse-error")
